@@ -426,3 +426,6 @@ V("c07-leading-rows-on-one-line", "C07", "rich/table.py", "                     
 V("c07-stale-table-width", "C07", "rich/table.py", "            widths = [_range.maximum or 1 for _range in width_ranges]\n            table_width = sum(widths)\n", "            widths = [_range.maximum or 1 for _range in width_ranges]\n", "R7.9")
 V("c07-expand-min-width-target", "C07", "rich/table.py", "                if (self.expand or self.min_width is None)\n", "                if self.min_width is None\n", "R7.8")
 V("c07-benign-expand-target-if", "C07", "rich/table.py", "            _max_width = (\n                max_width\n                if (self.expand or self.min_width is None)\n                else min(self.min_width - extra_width, max_width)\n            )\n", "            if self.expand or self.min_width is None:\n                _max_width = max_width\n            else:\n                _max_width = min(self.min_width - extra_width, max_width)\n", None)
+V("c10-progress-start-leaks-on-raise", "C10", PR, "            try:\n                self.refresh()\n            except BaseException:\n                # __exit__ will not run if __enter__ raises, so undo the above here\n                self._started = False\n                self.console.show_cursor(True)\n                self._disable_redirect_io()\n                self.console.pop_render_hook()\n                raise\n", "            self.refresh()\n", "R10.9")
+V("c10-progress-start-handler-forgets-hook", "C10", PR, "                self._disable_redirect_io()\n                self.console.pop_render_hook()\n                raise\n", "                self._disable_redirect_io()\n                raise\n", "R10.9")
+V("c10-benign-progress-start-handler-stop", "C10", PR, "                self._started = False\n                self.console.show_cursor(True)\n                self._disable_redirect_io()\n                self.console.pop_render_hook()\n                raise\n", "                self.stop()\n                raise\n", None)
